@@ -24,6 +24,10 @@ type c10Case struct {
 	NNP        bool     `json:"nnp"`
 	SpawnAfter int      `json:"spawn_after"`
 	Strace     bool     `json:"strace"`
+	// Divergent: another thread loads a filter of its own (no thread-sync) first, so that the kernel refuses the synchronisation.
+	Divergent bool `json:"divergent"`
+	// EnosysFault: seccomp(2) fails with ENOSYS in the whole process (outer sandbox / old kernel).
+	EnosysFault bool `json:"enosys_fault"`
 }
 
 var c10States = []string{"spin", "nanosleep", "read", "futex", "spawner"}
@@ -36,6 +40,12 @@ func drawC10(t *rapid.T) c10Case {
 		NNP:        rapid.Bool().Draw(t, "nnp"),
 		SpawnAfter: rapid.IntRange(0, 3).Draw(t, "spawnAfter"),
 		Strace:     rapid.IntRange(0, 9).Draw(t, "strace") == 0,
+	}
+	switch rapid.IntRange(0, 7).Draw(t, "fault") {
+	case 0:
+		c.Divergent, c.Strace = true, false
+	case 1:
+		c.EnosysFault, c.Strace = true, false
 	}
 	var n int
 	switch k := rapid.IntRange(0, 9).Draw(t, "nClass"); {
@@ -91,16 +101,30 @@ func checkC10(raw json.RawMessage) (ev.Result, error) {
 	for _, s := range c.States {
 		sts = append(sts, kjob.StateThread{State: s})
 	}
+	// steps 0..2 are fixed so that the indices below stay valid: 0 mkthreads, 1 states, 2 optional fault
+	fault := kjob.Step{Op: "sleep", N: 0}
+	switch {
+	case c.Divergent:
+		dp := c10Policy()
+		dp.Groups[0].Names = []string{"getuid"}
+		fault = kjob.Step{Op: "load", Thread: 1, Filter: &kjob.FilterSpec{Policy: dp, NNP: true, Flag: 0, HostArch: true}}
+	case c.EnosysFault:
+		fault = kjob.Step{Op: "outer-enosys"}
+	}
 	job := &kjob.Job{GOMAXPROCS: c.GOMAXPROCS, Steps: []kjob.Step{
-		{Op: "mkthreads", N: 1},
+		{Op: "mkthreads", N: 2},
 		{Op: "states", States: sts},
-		{Op: "sleep", N: c.DelayUs},
+		fault,
 		{Op: "load", Thread: 0, Filter: &kjob.FilterSpec{Policy: c10Policy(), NNP: c.NNP, Flag: c.Flag, HostArch: true}},
 		{Op: "release", Probes: probes},
 		{Op: "spawn", N: c.SpawnAfter, Probes: probes},
 		{Op: "allstatus"},
 		{Op: "probe", Thread: 0, Probes: probes},
+		{Op: "sleep", N: c.DelayUs},
 	}}
+	if c.DelayUs > 0 && !c.Divergent && !c.EnosysFault {
+		job.Steps[2] = kjob.Step{Op: "sleep", N: c.DelayUs}
+	}
 	rr, err := kchild.Run(job, kchild.RunOpts{Strace: c.Strace, Timeout: 60e9})
 	if err != nil {
 		return ev.Result{}, ev.Inconclusivef("%v", err)
@@ -116,12 +140,25 @@ func checkC10(raw json.RawMessage) (ev.Result, error) {
 	ld := le[0]
 	tsync := c.Flag&1 != 0
 	res := ev.Result{Classes: []string{fmt.Sprintf("flag:%d", c.Flag), fmt.Sprintf("gomaxprocs:%d", c.GOMAXPROCS)}}
+	if c.Divergent {
+		res.Classes = append(res.Classes, "fault:another-thread-carries-its-own-filter")
+	}
+	if c.EnosysFault {
+		if oe := rr.Find(2, "outer-enosys"); len(oe) != 1 || oe[0].Err != "" {
+			return res, ev.Inconclusivef("could not inject the ENOSYS fault")
+		}
+		res.Classes = append(res.Classes, "fault:seccomp-ENOSYS")
+	}
 	if !ld.Nil {
 		// the statement speaks about loads that return nil
-		c10Stats.loadFailed++
+		if !c.Divergent && !c.EnosysFault {
+			c10Stats.loadFailed++
+		}
 		res.Classes = append(res.Classes, "load-failed(no-claim)")
 		return res, nil
 	}
+	// under the ENOSYS fault every thread already carries the injecting filter: only the probes tell
+	modeOK := func(seccomp, want int) bool { return c.EnosysFault || seccomp == want }
 	// flag word reaches the kernel unmodified
 	nFilter := 0
 	for _, cap := range ld.Captures {
@@ -183,12 +220,12 @@ func checkC10(raw json.RawMessage) (ev.Result, error) {
 		}
 		st := r.Status[0]
 		if tsync {
-			if !d || st.Seccomp != 2 {
+			if !d || !modeOK(st.Seccomp, 2) {
 				return res, fmt.Errorf("thread-sync requested and LoadFilter returned nil, but thread %d (tid %d, state %q while the load ran, %d threads, GOMAXPROCS %d) is not filtered: Seccomp=%d, probe denied=%v",
 					r.Idx, r.Tid, r.State, len(c.States), c.GOMAXPROCS, st.Seccomp, d)
 			}
 		} else {
-			if d || st.Seccomp != 0 {
+			if d || !modeOK(st.Seccomp, 0) {
 				return res, fmt.Errorf("thread-sync NOT requested, but pre-existing thread %d (state %q) was touched: Seccomp=%d, probe denied=%v", r.Idx, r.State, st.Seccomp, d)
 			}
 		}
@@ -210,7 +247,7 @@ func checkC10(raw json.RawMessage) (ev.Result, error) {
 	as := rr.Find(6, "status")
 	if len(as) == 1 {
 		for _, s := range as[0].Status {
-			if s.Role == "command" && s.Seccomp != 2 {
+			if s.Role == "command" && s.Idx == 0 && s.Seccomp != 2 {
 				return res, fmt.Errorf("the loading thread has Seccomp=%d after a nil result", s.Seccomp)
 			}
 			if tsync && s.Role == "runtime" && s.Seccomp != 2 {
